@@ -100,30 +100,36 @@ package cron
 //@   replay val maxv = r.max
 
 // ---- getField: a comma-separated list of terms; the field's set is the union of the terms' sets ----
-// Ghosts: gn = number of terms, gv[k] / ge[k] = what getRange answered for term k, acc[k] = union of the first k terms.
+// The terms are the pieces of strings.Split(field, ","): term k is splitAt(field, ",", k), there are splitN(field, ",") >= 1
+// of them (an empty term is a term: it reaches getRange, which refuses it).
+// Ghosts: gn = number of terms, gt[k] = the text handed to getRange as term k, gv[k] / ge[k] = what getRange answered for it,
+// acc[k] = union of the first k terms.
 //@ func getField
 //@   tags C04 C07 C08
 //@   ghost gn int
+//@   ghost gt [int]string
 //@   ghost gv [int]int
 //@   ghost ge [int]iface
 //@   ghost acc [int]int
 //@   requires r.min <= r.max && r.max <= 62
 //@   modifies nothing
+//@   ensures [C04.field.nonempty] result1 == nil ==> gn >= 1
+//@   ensures [C04.field.count] gn == splitN(field, ",")
+//@   ensures [C04.field.terms] result1 == nil ==> (forall k :: 0 <= k && k < gn ==> gt[k] == splitAt(field, ",", k))
 //@   ensures [C04.field.union] result1 == nil ==> (result == acc[gn] && acc[0] == 0 && (forall k :: 0 <= k && k < gn ==> acc[k + 1] == (acc[k] | gv[k])))
 //@   ensures [C04.field.err] result1 == nil <==> (forall k :: 0 <= k && k < gn ==> ge[k] == nil)
-//@   at call FieldsFunc ghost gn = len(res0)
-//@   at call FieldsFunc ghost acc = update(acc, 0, 0)
+//@   at call Split assert [C04.field.split] arg0 == field && arg1 == ","
+//@   at call Split ghost gn = len(res0)
+//@   at call Split ghost acc = update(acc, 0, 0)
+//@   at call getRange assert [C04.field.term] arg0 == ranges[rangeindex + 1] && arg1.min == r.min && arg1.max == r.max && arg1.names == r.names
+//@   at call getRange ghost gt = update(gt, rangeindex + 1, arg0)
 //@   at call getRange ghost gv = update(gv, rangeindex + 1, res0)
 //@   at call getRange ghost ge = update(ge, rangeindex + 1, res1)
 //@   at call getRange ghost acc = update(acc, rangeindex + 2, acc[rangeindex + 1] | res0)
-//@   loop 0 invariant -1 <= rangeindex && rangeindex < gn && gn == len(ranges) && bits == acc[rangeindex + 1] && acc[0] == 0
-//@   loop 0 invariant forall k :: 0 <= k && k <= rangeindex ==> (acc[k + 1] == (acc[k] | gv[k]) && ge[k] == nil)
+//@   loop 0 invariant -1 <= rangeindex && rangeindex < gn && gn == len(ranges) && gn == splitN(field, ",") && gn >= 1 && bits == acc[rangeindex + 1] && acc[0] == 0
+//@   loop 0 invariant forall k :: 0 <= k && k < len(ranges) ==> ranges[k] == splitAt(field, ",", k)
+//@   loop 0 invariant forall k :: 0 <= k && k <= rangeindex ==> (acc[k + 1] == (acc[k] | gv[k]) && ge[k] == nil && gt[k] == splitAt(field, ",", k))
 //@   loop 0 decreases len(ranges) - rangeindex
-
-//@ func getField$1
-//@   tags C07 C08
-//@   modifies nothing
-//@   ensures result <==> r == ','
 
 // ---- normalizeFields ----
 // hasPlace(o, i): the option set o includes the i-th field (Second Minute Hour Dom Month Dow).
@@ -219,7 +225,8 @@ package cron
 //@   ensures 1 <= call_Day_0_result && call_Day_0_result <= 31 && 0 <= call_Weekday_0_result && call_Weekday_0_result <= 6
 //@   intview requires s != nil
 
-// ---- package tables (written by the package initializer only; every other function has `modifies nothing`) ----
+// ---- package tables (written by the package initializer; every function under contract has a frame that excludes them --
+// what that does and does not prove for C08 is spelled out in the C08 section at the end of this file) ----
 // The initializer either finds the package already initialized (nothing touched) or establishes the documented tables.
 //@ func init
 //@   tags C04 C08
@@ -236,6 +243,13 @@ package cron
 //@   ensures [C04.tables.dow] (places == old(places)) || (len(dow.names) == 7 && haskey(dow.names, "sun") && dow.names["sun"] == 0 && haskey(dow.names, "mon") && dow.names["mon"] == 1 && haskey(dow.names, "tue") && dow.names["tue"] == 2 && haskey(dow.names, "wed") && dow.names["wed"] == 3
 //@        && haskey(dow.names, "thu") && dow.names["thu"] == 4 && haskey(dow.names, "fri") && dow.names["fri"] == 5 && haskey(dow.names, "sat") && dow.names["sat"] == 6)
 //@   ensures [C04.tables.parser] (places == old(places)) || standardParser.options == 380    // Minute | Hour | Dom | Month | Dow | Descriptor
+// C08 (see the C08 section at the end of this file): the real initialization path establishes the tables, stated at its last store
+//@   at store names#5 assert [C08.tables.established] len(places) == 6 && places[0] == 1 && places[1] == 4 && places[2] == 8 && places[3] == 16 && places[4] == 32 && places[5] == 64
+//@        && len(defaults) == 6 && defaults[0] == "0" && defaults[1] == "0" && defaults[2] == "0" && defaults[3] == "*" && defaults[4] == "*" && defaults[5] == "*"
+//@        && seconds.min == 0 && seconds.max == 59 && minutes.min == 0 && minutes.max == 59 && hours.min == 0 && hours.max == 23
+//@        && dom.min == 1 && dom.max == 31 && months.min == 1 && months.max == 12 && dow.min == 0 && dow.max == 6
+//@        && standardParser.options == 380
+//@        && places.base != defaults.base && fresh(places) && fresh(defaults)
 
 // ---- parser construction ----
 
@@ -259,6 +273,15 @@ package cron
 //@   mode bv
 //@   ghost gdurerr iface                       // what time.ParseDuration said about the text after "@every "
 //@   at call ParseDuration ghost gdurerr = res1
+// "@every d": d is the text after "@every ", its duration goes to Every unchanged, and the schedule returned is Every's
+// (Every's own contract: the delay is d truncated to whole seconds, at least one second).
+//@   ghost gdur int64
+//@   ghost gev int64
+//@   at call ParseDuration assert [C04.desc.every.text] len(arg0) == len(descriptor) - 7 && (forall k :: 0 <= k && k < len(arg0) ==> arg0[k] == descriptor[7 + k])
+//@   at call ParseDuration ghost gdur = res0
+//@   at call Every assert [C04.desc.every.arg] arg0 == gdur
+//@   at call Every ghost gev = res0.Delay
+//@   ensures [C04.desc.every.delay] (!isNamedDescriptor(descriptor) && isEvery(descriptor) && result1 == nil) ==> unbox(result, "github.com/dapr/kit/cron.ConstantDelaySchedule").Delay == gev
 //@   requires seconds.min == 0 && minutes.min == 0 && hours.min == 0 && hours.max == 23 && dom.min == 1 && dom.max == 31 && months.min == 1 && months.max == 12 && dow.min == 0 && dow.max == 6
 //@   modifies nothing
 //@   ensures [C04.desc.yearly] (descriptor == "@yearly" || descriptor == "@annually") ==> (result1 == nil && typeis(result, "*github.com/dapr/kit/cron.SpecSchedule") && deref(result, "github.com/dapr/kit/cron.SpecSchedule").Location == loc && deref(result, "github.com/dapr/kit/cron.SpecSchedule").Second == 1 && deref(result, "github.com/dapr/kit/cron.SpecSchedule").Minute == 1 && deref(result, "github.com/dapr/kit/cron.SpecSchedule").Hour == 1 && deref(result, "github.com/dapr/kit/cron.SpecSchedule").Dom == 2 && deref(result, "github.com/dapr/kit/cron.SpecSchedule").Month == 2
@@ -290,8 +313,9 @@ package cron
 //@   intview ensures (result1 == nil && isNamedDescriptor(descriptor)) ==> (typeis(result, "*github.com/dapr/kit/cron.SpecSchedule") && deref(result, "github.com/dapr/kit/cron.SpecSchedule").Location == loc)
 
 // ---- Parse ----
-// Package invariant (established by the package initializer, see func init; preserved because every function
-// below has `modifies nothing`): the tables places / defaults / bounds hold their documented values.
+// The tables places / defaults / bounds hold their documented values: established by the package initializer (func init,
+// [C08.tables.established]) and written by no function under contract; that they still hold on entry is a `requires` of
+// Parse / ParseStandard that no caller discharges (listed assumption "package cron tables", see the C08 section below).
 
 // the field closure of Parse: once an error has been recorded nothing is parsed any more and the error is kept
 //@ func (Parser).Parse$1
@@ -299,6 +323,13 @@ package cron
 //@   requires r.min <= r.max && r.max <= 62
 //@   modifies err
 //@   ensures [C04.parse.field.skip] old(err) != nil ==> (result == 0 && err == old(err))
+// otherwise the field text and the field's bounds go to getField unchanged, and its set and verdict come back unchanged
+//@   ghost ge iface
+//@   ghost gb int
+//@   at call getField assert [C04.closure.args] arg0 == field && arg1.min == r.min && arg1.max == r.max && arg1.names == r.names
+//@   at call getField ghost ge = res1
+//@   at call getField ghost gb = res0
+//@   ensures [C04.closure.pass] old(err) == nil ==> (err == ge && result == gb)
 
 //@ pure func isTZ(s string) bool = (len(s) >= 3 && s[0] == 'T' && s[1] == 'Z' && s[2] == '=')
 //@        || (len(s) >= 8 && s[0] == 'C' && s[1] == 'R' && s[2] == 'O' && s[3] == 'N' && s[4] == '_' && s[5] == 'T' && s[6] == 'Z' && s[7] == '=')
@@ -334,6 +365,27 @@ package cron
 //@        && deref(result, "github.com/dapr/kit/cron.SpecSchedule").Dom == gf3 && deref(result, "github.com/dapr/kit/cron.SpecSchedule").Month == gf4 && deref(result, "github.com/dapr/kit/cron.SpecSchedule").Dow == gf5
 //@        && deref(result, "github.com/dapr/kit/cron.SpecSchedule").Location == gloc && gloc != nil)
 //@   ensures [C04.parse.loc.default] (result1 == nil && !isTZ(spec)) ==> gloc == time.Local
+// Wiring (which text and which table reaches which leaf): the zone name is the text between the first '=' and the first ' ';
+// the rest (trimmed) is the descriptor / the field list; the i-th normalized field is parsed against the i-th field's bounds
+// (seconds minutes hours dom months dow); a field that is refused makes Parse fail.
+//@   ghost gferr iface
+//@   ghost gfs slice
+//@   at call LoadLocation assert [C04.tz.name] len(arg0) == i - eq - 1 && old(spec)[eq] == '=' && old(spec)[i] == ' '
+//@        && (forall k :: 0 <= k && k < len(arg0) ==> arg0[k] == old(spec)[eq + 1 + k])
+//@        && (forall k :: 0 <= k && k < i ==> old(spec)[k] != ' ') && (forall k :: 0 <= k && k < eq ==> old(spec)[k] != '=')
+//@   at call TrimSpace assert [C04.tz.rest] len(arg0) == len(old(spec)) - i && (forall k :: 0 <= k && k < len(arg0) ==> arg0[k] == old(spec)[i + k])
+//@   at call parseDescriptor assert [C04.desc.args] arg0 == grest && arg1 == gloc
+//@   at call Fields assert [C04.fields.src] arg0 == grest
+//@   at call Fields ghost gfs = res0
+//@   at call normalizeFields assert [C04.norm.args] arg0 == gfs && arg1 == p.options
+//@   at call Parse$1#0 assert [C04.wire0] arg0 == fields[0] && arg1.min == seconds.min && arg1.max == seconds.max && arg1.names == seconds.names
+//@   at call Parse$1#1 assert [C04.wire1] arg0 == fields[1] && arg1.min == minutes.min && arg1.max == minutes.max && arg1.names == minutes.names
+//@   at call Parse$1#2 assert [C04.wire2] arg0 == fields[2] && arg1.min == hours.min && arg1.max == hours.max && arg1.names == hours.names
+//@   at call Parse$1#3 assert [C04.wire3] arg0 == fields[3] && arg1.min == dom.min && arg1.max == dom.max && arg1.names == dom.names
+//@   at call Parse$1#4 assert [C04.wire4] arg0 == fields[4] && arg1.min == months.min && arg1.max == months.max && arg1.names == months.names
+//@   at call Parse$1#5 assert [C04.wire5] arg0 == fields[5] && arg1.min == dow.min && arg1.max == dow.max && arg1.names == dow.names
+//@   at call Parse$1#5 ghost gferr = err
+//@   ensures [C04.parse.fielderr] (!(len(grest) >= 1 && grest[0] == '@') && gferr != nil) ==> result1 != nil
 //@   at call HasPrefix#0 ghost gloc = loc
 //@   at call HasPrefix#0 ghost grest = spec
 //@   at call LoadLocation ghost gzone = arg0
@@ -364,10 +416,174 @@ package cron
 //@   ensures [C04.parse.err] result1 != nil ==> result == nil
 //@   ensures [C04.parse.ok] result1 == nil ==> result != nil
 //@   ensures [C04.parse.empty] len(standardSpec) == 0 ==> result1 != nil
+// the standard parser: five fields (minute hour dom month dow) plus descriptors, applied to the text given; its answer is the answer
+//@   ghost gs iface
+//@   ghost ge iface
+//@   at call Parse assert [C04.std.args] arg0.options == 380 && arg1 == standardSpec
+//@   at call Parse ghost gs = res0
+//@   at call Parse ghost ge = res1
+//@   ensures [C04.std.pass] result == gs && result1 == ge
 
-// ---- SpecSchedule.Next: safety only (no panic); minimality of the calendar search is not attempted here ----
+// ---- SpecSchedule.Next: safety (no panic) and local soundness of the search ----
 // A schedule built by Parse / parseDescriptor always carries a non-nil Location (time.In and time.Date panic on nil).
+// Proved here (the calendar itself - time.Date / AddDate / Truncate and the wall-clock accessors - has no model, so "earliest",
+// "strictly after t" for the value returned and DST behaviour stay with the bounded stand-ins):
+//   * the search starts at the first whole second strictly after t                                         [C04.next.start]
+//   * a non-zero result is the instant whose Second() passed the seconds mask, returned unchanged           [C04.next.second/.instant]
+//     and a whole second                                                                                    [C04.next.wholesecond]
+//   * the last month / day / hour / minute test made before returning it passed its mask                    [C04.next.month .. .minute]
+//   * the search gives up (zero time) only after the candidate's year has passed year(start)+5              [C04.next.giveup]
+// Ghosts: gsec gmin ghour gmon gday = the value the respective test saw last; gts = the instant the seconds test saw last;
+// gy0 = the year of the start instant, gy = the year seen by the give-up test.
 //@ func (*SpecSchedule).Next
-//@   tags C07 C08
+//@   tags C04 C07 C08
 //@   requires s != nil && s.Location != nil
+//@   modifies nothing
+//@   ghost gsec int
+//@   ghost gmin int
+//@   ghost ghour int
+//@   ghost gmon int
+//@   ghost gday bool
+//@   ghost gy0 int
+//@   ghost gy int
+//@   ghost gts int
+//@   at call Second#0 ghost gsec = res0
+//@   at call Second#0 ghost gts = unixNano(arg0)
+//@   at call Minute#0 ghost gmin = res0
+//@   at call Hour#4 ghost ghour = res0
+//@   at call Month#0 ghost gmon = res0
+//@   at every call dayMatches ghost gday = res0
+//@   at call Year#0 ghost gy0 = res0
+//@   at call Year#1 ghost gy = res0
+//@   at call Add#0 assert [C04.next.start] unixNano(res0) == unixNano(old(t)) - unixNano(old(t)) % 1000000000 + 1000000000
+//@   ensures [C04.next.second] result == zero(result) || ((1 << gsec) & s.Second) != 0
+//@   ensures [C04.next.minute] result == zero(result) || ((1 << gmin) & s.Minute) != 0
+//@   ensures [C04.next.hour] result == zero(result) || ((1 << ghour) & s.Hour) != 0
+//@   ensures [C04.next.month] result == zero(result) || ((1 << gmon) & s.Month) != 0
+//@   ensures [C04.next.day] result == zero(result) || gday
+//@   ensures [C04.next.instant] result == zero(result) || unixNano(result) == gts
+//@   ensures [C04.next.wholesecond] result == zero(result) || unixNano(result) % 1000000000 == 0
+//@   ensures [C04.next.giveup] ((1 << gsec) & s.Second) != 0 || gy > gy0 + 5
+//@   loop 0 invariant unixNano(t) % 1000000000 == 0
+//@   loop 1 invariant unixNano(t) % 1000000000 == 0
+//@   loop 2 invariant unixNano(t) % 1000000000 == 0
+//@   loop 3 invariant unixNano(t) % 1000000000 == 0
+//@   loop 4 invariant unixNano(t) % 1000000000 == 0
+//@   loop 5 invariant unixNano(t) % 1000000000 == 0
+
+// ---- C08: the package tables and the default parser are shared by every parse in the process ----
+// places, defaults, seconds .. dow, standardParser (and DefaultLogger / DiscardLogger) are written by the package
+// initializer and by nothing else. What is proved: (a) the initializer establishes them ([C08.tables.established],
+// stated at the last store of the real initialization path, without the "already initialized" alternative of the
+// C04 clauses); (b) every function under contract has a `modifies` clause that names none of them -- the parser
+// functions above (`modifies nothing`), and below the options (an Option writes one field of the Cron it is applied
+// to), and the whole of logger.go. What is NOT proved: that the initializer's postcondition still holds when an
+// exported function is entered (Parse / ParseStandard `require` it): the contract language has no package invariant
+// that would be checked against every function of the package, and chain.go / cron.go (the scheduler: New, AddJob,
+// run, ...) are outside any frame. Listed as an assumption (assume-text "package cron tables" in syncpool.spec).
+
+// -- options: each returns a closure that writes exactly one field of the Cron it is applied to --
+//@ func WithSeconds
+//@   tags C08
+//@   mode bv
+//@   modifies nothing
+
+//@ func WithParser
+//@   tags C08
+//@   modifies nothing
+//@ func WithParser$1
+//@   tags C08
+//@   requires c != nil
+//@   modifies c.parser
+//@   ensures [C08.opt.parser] c.parser == p
+
+//@ func WithLocation
+//@   tags C08
+//@   modifies nothing
+//@ func WithLocation$1
+//@   tags C08
+//@   requires c != nil
+//@   modifies c.location
+//@   ensures [C08.opt.location] c.location == loc
+
+//@ func WithLogger
+//@   tags C08
+//@   modifies nothing
+//@ func WithLogger$1
+//@   tags C08
+//@   requires c != nil
+//@   modifies c.logger
+//@   ensures [C08.opt.logger] c.logger == logger
+
+//@ func WithClock
+//@   tags C08
+//@   modifies nothing
+//@ func WithClock$1
+//@   tags C08
+//@   requires c != nil
+//@   modifies c.clk
+//@   ensures [C08.opt.clock] c.clk == clk
+
+//@ func NewChain
+//@   tags C08
+//@   modifies nothing
+//@   ensures [C08.chain.wrappers] result.wrappers == c
+
+//@ func WithChain
+//@   tags C08
+//@   modifies nothing
+//@ func WithChain$1
+//@   tags C08
+//@   requires c != nil
+//@   modifies c.chain
+//@   ensures [C08.opt.chain] c.chain.wrappers == wrappers
+
+// An Option, as a function value: it configures the Cron it is applied to and nothing else. Proved for the options of
+// this package (the With*$1 closures above: one field of c each); for options written by the user it is an assumption
+// (`skip`: the engine has no refinement obligation between a function type and the closures that inhabit it).
+//@ func functype github.com/dapr/kit/cron.Option
+//@   skip
+//@   params c
+//@   requires c != nil
+//@   modifies fields(c)
+
+// New: a new Cron that shares only immutable things with the package (the default logger and the default parser are
+// read, never written); the options are applied to the new object only.
+//@ func New
+//@   tags C08
+//@   requires forall i :: 0 <= i && i < len(opts) ==> opts[i] != nil      // a nil Option is a nil function call (caller's error)
+//@   modifies nothing
+//@   loop 0 invariant -1 <= rangeindex && rangeindex < len(opts)
+//@   ensures [C08.new.fresh] result != nil && fresh(result)
+
+// -- logger.go: nothing of the package and nothing of the caller is written; the caller's key/value list is copied --
+//@ func PrintfLogger
+//@   tags C08
+//@   modifies nothing
+//@ func VerbosePrintfLogger
+//@   tags C08
+//@   modifies nothing
+
+//@ func formatTimes
+//@   tags C08
+//@   modifies nothing
+//@   ensures [C08.cronlog.fresh] result == nil || fresh(result)
+//@   ensures [C08.cronlog.len] len(result) == len(keysAndValues)
+//@   ensures [C08.cronlog.same] forall i :: 0 <= i && i < len(keysAndValues) && !typeis(keysAndValues[i], "time.Time") ==> result[i] == keysAndValues[i]
+//@   loop 0 invariant -1 <= rangeindex && rangeindex < len(keysAndValues) && len(formattedArgs) == rangeindex + 1 && (formattedArgs == nil || fresh(formattedArgs))
+//@   loop 0 invariant forall i :: 0 <= i && i <= rangeindex && !typeis(keysAndValues[i], "time.Time") ==> formattedArgs[i] == keysAndValues[i]
+
+//@ func formatString
+//@   tags C08
+//@   modifies nothing
+
+// (a printfLogger built from a nil value panics when it logs: PrintfLogger(nil) is a configuration error of the
+// caller, stated as a precondition; it has nothing to do with shared state)
+//@ func (printfLogger).Info
+//@   tags C08
+//@   requires pl.logger != nil
+//@   modifies nothing
+//@ func (printfLogger).Error
+//@   tags C08
+//@   requires pl.logger != nil
 //@   modifies nothing
